@@ -12,27 +12,38 @@ The fragment is deliberately narrow: everything in it has one meaning in
 docs/learn/logica.md and SQLite evaluates it exactly (small integers only).
 """
 VARS = 'xyzuvw'
+STRS = ['a', 'b', 'c', 'x y', 'Z', '']
+COLS = ['a', 'b', 'k', 'v', 'name', 't', 'id']
 
 
 def term(t):
   if t[0] == 'c':
+    if isinstance(t[1], str):
+      return '"%s"' % t[1]
     return str(t[1]) if t[1] >= 0 else '(%d)' % t[1]
   if t[0] == 'v':
     return t[1]
   return '(%s %s %d)' % (t[1], t[2], t[3])
 
 
-def render_rule(p, r):
+def args_text(terms, cols):
+  if cols:
+    return ', '.join('%s: %s' % (c, term(t)) for c, t in zip(cols, terms))
+  return ', '.join(term(t) for t in terms)
+
+
+def render_rule(p, r, cols_of=None):
+  cols_of = cols_of or {}
   body = []
   for q, args, valvar in r['atoms']:
-    a = ', '.join(term(t) for t in args)
+    a = args_text(args, cols_of.get(q))
     if valvar:
       body.append('%s == %s(%s)' % (valvar, q, a))
     else:
       body.append('%s(%s)' % (q, a))
   for a, op, b in r['cmps']:
     body.append('%s %s %s' % (a, op, term(b)))
-  h = ', '.join(term(t) for t in r['head'])
+  h = args_text(r['head'], p.get('cols'))
   tail = (' :- ' + ', '.join(body)) if body else ''
   if p['kind'] == 'bag':
     return '%s(%s)%s;' % (p['name'], h, tail)
@@ -59,73 +70,111 @@ def render(program, engine_line=True):
       out.append('@Recursive(%s, %d%s);' % (name, d['depth'], extra))
     else:
       out.append('@Recursive(%s, %d);' % (name, d))
+  cols_of = {p['name']: p.get('cols') for p in program['preds']}
   for p in program['preds']:
     if p['kind'] == 'edb':
       if p.get('table'):
         continue
       for row in p['rows']:
-        out.append('%s(%s);' % (p['name'], ', '.join(term(['c', v]) for v in row)))
+        out.append('%s(%s);' % (p['name'], args_text([['c', v] for v in row], p.get('cols'))))
       continue
     for r in p['rules']:
-      out.append(render_rule(p, r))
+      out.append(render_rule(p, r, cols_of))
   return '\n'.join(out) + '\n'
 
 
 # ------------------------------------------------------------------ non-recursive programs
 
-def gen_edb(r, name, arity=None, nrows=None, dom=5):
+def gen_edb(r, name, arity=None, nrows=None, dom=5, typed=False, types=None):
   ar = arity or r.randint(1, 2)
   n = nrows if nrows is not None else r.randint(1, 6)
-  rows = [[r.randint(0, dom - 1) for _ in range(ar)] for _ in range(n)]
-  return {'name': name, 'arity': ar, 'kind': 'edb', 'rows': rows, 'rules': []}
+  if types is None:
+    types = ['s' if (typed and r.random() < 0.3) else 'i' for _ in range(ar)]
+  rows = [[(r.choice(STRS) if t == 's' else r.randint(0, dom - 1)) for t in types] for _ in range(n)]
+  d = {'name': name, 'arity': ar, 'kind': 'edb', 'rows': rows, 'rules': [], 'types': types}
+  if typed and r.random() < 0.35:
+    d['cols'] = r.sample(COLS, ar)
+  return d
 
 
-def gen_rule(r, preds, arity, kind, allow_expr=True):
+def const_of(r, t):
+  return ['c', r.choice(STRS)] if t == 's' else ['c', r.randint(0, 4)]
+
+
+def gen_rule(r, preds, arity, kind, allow_expr=True, want_types=None):
   natoms = r.randint(1, 3)
   atoms = []
   bound = []
+  vtype = {}
   for _a in range(natoms):
     q = r.choice(preds)
+    qtypes = q.get('types') or ['i'] * q['arity']
     args = []
-    for _k in range(q['arity']):
+    for k in range(q['arity']):
+      t = qtypes[k]
+      same = [v for v in bound if vtype[v] == t]
       x = r.random()
       if x < 0.15:
-        args.append(['c', r.randint(0, 4)])
-      elif x < 0.55 and bound:
-        args.append(['v', r.choice(bound)])
+        args.append(const_of(r, t))
+      elif x < 0.55 and same:
+        args.append(['v', r.choice(same)])
       else:
         names = list(dict.fromkeys(bound))
-        v = VARS[len(names)] if len(names) < len(VARS) else r.choice(bound)
+        if len(names) < len(VARS):
+          v = VARS[len(names)]
+        elif same:
+          v = r.choice(same)
+        else:
+          args.append(const_of(r, t))
+          continue
         args.append(['v', v])
-        bound.append(v)
+        if v not in vtype:
+          vtype[v] = t
+          bound.append(v)
     valvar = None
     if q['kind'] == 'agg':
       valvar = 'a%d' % len(atoms)
     atoms.append([q['name'], args, valvar])
     if valvar:
       bound.append(valvar)
+      vtype[valvar] = 'i'
   bound = list(dict.fromkeys(bound))
   if not bound:
     return None
+  ints = [v for v in bound if vtype[v] == 'i']
   cmps = []
   if r.random() < 0.5:
     a = r.choice(bound)
     op = r.choice(['<', '<=', '==', '!=', '>', '>='])
-    b = ['c', r.randint(0, 5)] if r.random() < 0.6 else ['v', r.choice(bound)]
+    same = [v for v in bound if vtype[v] == vtype[a]]
+    if r.random() < 0.6:
+      b = ['c', r.choice(STRS)] if vtype[a] == 's' else ['c', r.randint(0, 5)]
+    else:
+      b = ['v', r.choice(same)]
     cmps.append([a, op, b])
   head = []
-  for _k in range(arity):
+  types = []
+  for k in range(arity):
+    want = want_types[k] if want_types else None
+    cands = [v for v in bound if want is None or vtype[v] == want]
     x = r.random()
-    if x < 0.7 or not allow_expr:
-      head.append(['v', r.choice(bound)])
-    elif x < 0.85:
+    if cands and (x < 0.7 or not allow_expr or want == 's'):
+      v = r.choice(cands)
+      head.append(['v', v])
+      types.append(vtype[v])
+    elif want == 's':
+      head.append(['c', r.choice(STRS)])
+      types.append('s')
+    elif x < 0.85 or not ints:
       head.append(['c', r.randint(0, 4)])
+      types.append('i')
     else:
-      head.append(['e', r.choice(bound), r.choice(['+', '-', '*']), r.randint(0, 3)])
+      head.append(['e', r.choice(ints), r.choice(['+', '-', '*']), r.randint(0, 3)])
+      types.append('i')
   aggval = None
   if kind == 'agg':
-    aggval = ['v', r.choice(bound)] if r.random() < 0.7 else ['c', 1]
-  return {'head': head, 'atoms': atoms, 'cmps': cmps, 'aggval': aggval}
+    aggval = ['v', r.choice(ints)] if (ints and r.random() < 0.7) else ['c', 1]
+  return {'head': head, 'atoms': atoms, 'cmps': cmps, 'aggval': aggval, 'types': types}
 
 
 # Predicate names users actually write: digits, underscores, suffixes that look like (but are
@@ -139,9 +188,10 @@ def idb_name(r, i):
 
 
 def gen_nonrecursive(r, n_idb=None, min_idb=1, plain_names=False):
+  typed = not plain_names and r.random() < 0.6     # strings and named columns in the mix
   preds = []
   for i in range(r.randint(1, 2)):
-    preds.append(gen_edb(r, 'E%d' % i))
+    preds.append(gen_edb(r, 'E%d' % i, typed=typed))
   n = n_idb or r.randint(max(min_idb, 1), 5)
   i = 0
   tries = 0
@@ -150,13 +200,18 @@ def gen_nonrecursive(r, n_idb=None, min_idb=1, plain_names=False):
     kind = r.choice(['bag', 'bag', 'distinct', 'agg'])
     ar = r.randint(1, 2)
     rules = []
+    types = None
     for _ in range(r.randint(1, 2)):
-      rule = gen_rule(r, preds, ar, kind)
+      rule = gen_rule(r, preds, ar, kind, want_types=types)
       if rule:
+        types = rule.pop('types')
         rules.append(rule)
     if not rules:
       continue
-    d = {'name': 'P%d' % i if plain_names else idb_name(r, i), 'arity': ar, 'kind': kind, 'rules': rules}
+    d = {'name': 'P%d' % i if plain_names else idb_name(r, i), 'arity': ar, 'kind': kind, 'rules': rules,
+         'types': types}
+    if typed and r.random() < 0.3:
+      d['cols'] = r.sample(COLS, ar)
     if kind == 'agg':
       d['op'] = r.choice(['+=', 'Min=', 'Max='])
     preds.append(d)
